@@ -2,6 +2,7 @@ import Fabio.Driver.Proto
 import Fabio.Driver.RouteJson
 import Fabio.Model.C16
 import Fabio.Model.C16Serve
+import Fabio.Model.C16Relay
 import Fabio.Model.C03
 /-!
 Driver handlers for C16.
@@ -301,6 +302,47 @@ def CallTrack.note (t : CallTrack) (cls : String) (agree spec : Bool) (tag : Str
            classes := if t.classes.contains cls then t.classes else t.classes ++ [cls],
            model := t.model ++ [Json.str cls] }
 
+/-! the relay model (`Model/C16Relay.lean`) run on a schedule that follows the interaction mode of the case: by
+`Props.C16Relay.finished_call_is_transparent` what the caller ends up with does not depend on the schedule, so
+one schedule per mode suffices to predict the whole observation — the backend's messages, trailers, status
+code and message at the caller, the backend's header exactly when it sent a message, and at a backend that
+reads to the end of the stream all the caller's messages. -/
+
+open Relay in
+def relaySchedule (mode : String) (ms reps : List String) (hdr tr : Spec.SMD) (st : Relay.Status) : List Relay.Ev :=
+  let up : List Ev := ms.map Ev.callerSend ++ [.callerClose]
+  let down : List Ev := reps.map Ev.backendSend
+  let fin : List Ev := [.backendFinish tr st]
+  let n := 3 * (ms.length + reps.length) + 8
+  match mode with
+  | "early" => [.backendHeader hdr] ++ down ++ fin ++ up ++ settle n
+  | "replyfirst" => [.backendHeader hdr] ++ down ++ settle n ++ up ++ settle n ++ fin ++ settle n
+  | "pingpong" =>
+    -- one reply per message while there are replies, the rest after the end of the stream
+    let rec go : List String → List String → List Ev
+      | [], rs => [.callerClose] ++ settle n ++ rs.map Ev.backendSend
+      | m :: ms', [] => [.callerSend m] ++ settle 4 ++ go ms' []
+      | m :: ms', r :: rs => [.callerSend m] ++ settle 4 ++ [.backendSend r] ++ settle 4 ++ go ms' rs
+    [.backendHeader hdr] ++ go ms reps ++ fin ++ settle n
+  | _ => up ++ settle n ++ [.backendHeader hdr] ++ down ++ fin ++ settle n
+
+/-- does the recorded call look like the relay model's prediction? -/
+def relayAgrees (method : String) (sentMD : Spec.SMD) (mode : String) (ms : List String) (did : Spec.BackendDid)
+    (saw : Spec.CallerSaw) (bsaw : Spec.BackendSaw) (drained : Bool) : Bool :=
+  let s := Relay.run (Relay.init method sentMD)
+    (relaySchedule mode ms did.msgs did.header did.trailer { code := did.code, message := did.message })
+  match s.cFin with
+  | none => false
+  | some (tr, st) =>
+    saw.code == st.code && saw.message == st.message && Spec.mdCarried tr saw.trailer
+      && Spec.Wire.sameMsgs saw.msgs s.cGot
+      && (match s.cHdr with
+          | some h => Spec.mdCarried h saw.header
+          -- no message, no header: none of the backend's header keys reaches the caller
+          | none => did.header.all fun kv => (Spec.smdGet saw.header kv.1).isEmpty)
+      && bsaw.method == s.bMethod && Spec.mdCarried s.bMD bsaw.md
+      && drained == s.bEOF && (!drained || Spec.Wire.sameMsgs bsaw.msgs s.bGot)
+
 def callStep (t : CallTrack) (st o : Json) : CallTrack :=
   match getStrD st "op" with
   | "table" =>
@@ -405,8 +447,10 @@ def callStep (t : CallTrack) (st o : Json) : CallTrack :=
           -- the backend reached is a target of a route matching the call (reference on the dumped table)
           let inCands := cands.contains idx && nhits == 1
           let spec := inCands && methodOK && mdOK && msgsFwd && msgsBack && statusOK && trailerOK && headerOK && reuseOK
+          let relayOK := relayAgrees method sentMD (getStrD script "mode") sentMsgs did saw bsaw drained
           let tag :=
-            if !inCands then "backend-of-no-matching-route"
+            if cands.contains idx && nhits > 1 then "call-handed-to-a-backend-more-than-once"
+            else if !inCands then "backend-of-no-matching-route"
             else if !inSet then "wrong-backend"
             else if !methodOK then "method-altered"
             else if !mdOK then "metadata-lost-or-altered"
@@ -414,10 +458,11 @@ def callStep (t : CallTrack) (st o : Json) : CallTrack :=
             else if !statusOK then "status-altered"
             else if !trailerOK then "trailer-lost-or-altered"
             else if !headerOK then "header-lost-or-altered"
-            else "message-altered"
+            else if !(msgsFwd && msgsBack) then "message-altered"
+            else "differs-from-the-relay-model"
           let t := { t with lastConn := (idx, conn) :: t.lastConn.filter (·.1 != idx), forwards := t.forwards + 1,
                             reused := t.reused + (if (t.lastConn.lookup idx).isSome then 1 else 0) }
-          t.note "forward" (inSet && ppOK) spec tag
+          t.note "forward" (inSet && ppOK && relayOK) spec tag
   | _ => t.note "bad-step" false true "bad-step"
 
 def callH : Handler := fun inp impl => do
